@@ -33,6 +33,14 @@ func runC05(r *fw.Run, p *fw.Program) {
 	c05Raw(r, p)
 	c05Fmt(r, p)
 	c05JQ(r, p)
+	// the bytes a value denotes are RootReader[Range]: decode() must rebase ranges AND retarget the reader of every
+	// value of a nested format to the enclosing buffer (borrowed from C03.rebase)
+	{
+		sc := r.Scratch()
+		runC03(sc, p)
+		r.Import(sc, "C03.rebase", "C05.rebase", "decode(): every value decoded through a sub-reader window gets its range rebased and its RootReader set to the enclosing reader unconditionally, so Range and RootReader always refer to the same buffer (C03.rebase obligations except the recorded nested-roots finding)", 5,
+			func(k string) bool { return k != "decode:nested-roots-rebased" })
+	}
 	r.Assumption("C05: bit-exactness of bitio.SectionReader/MultiReader/IOReader/LimitReader is decided under C01; Value.Range being the range the decoder actually read is C03/C04")
 }
 
